@@ -89,6 +89,13 @@ func c01Paths(maxSeg int) []string {
 		"/sub/../../../out/secret.txt", "/***DVD***/../../root-other", "/***PS3***/../..", "/***DVD***/..", "/PS3ISO/../../PS3ISO/g.iso", "/../PS3ISO/g.iso", "../PS3ISO/g.iso",
 		"/***DVD***/..%2froot-other", "/***DVD***/%2e%2e%2froot-other", "/***PS3***/sub/%2e%2e/%2e%2e/root-other", "/%2e%2e/root-other/secret.txt", "/..%2f..%2fsecret.txt", "/***DVD***/..%5croot-other", "/***DVD***/%2E%2E/root-other/",
 		"/w/../../w/x", "/./../root-other/./secret.txt", "/root-other/../../root-other/secret.txt", "/..", "..", "/../", "/../root", "/../root/a.txt", "/../rootx/secret.txt")
+	// '..' elements decorated with one byte that a later clean-up stage (log sanitising, trimming, charset
+	// conversion) might drop after the clamp has run: as sent they are ordinary (non-existent) names under the root
+	for _, c := range []string{"\x01", "\t", "\n", "\r", "\x1b", "\x7f", " ", "\x80", "\xff", "\u200b", "\ufeff"} {
+		for _, dd := range []string{c + "..", "." + c + ".", ".." + c} {
+			out = append(out, "/"+dd+"/root-other/secret.txt", dd+"/rootx/secret.txt", "/sub/"+dd+"/"+dd+"/root-other/sub", "/"+dd+"/"+dd+"/out/secret.txt", "/***DVD***/"+dd+"/"+dd+"/root-other")
+		}
+	}
 	return out
 }
 
